@@ -206,7 +206,15 @@ class Rational(Primitive):
     def _modulo(self, right: _any.Any) -> "Rational":
         return self._generic_arithmetic(right, operator.mod)
 
+    _MAX_POWER_RESULT_BITS = 2**24
+
     def _power(self, right: _any.Any) -> "Rational":
+        if isinstance(right, Rational) and right.is_integer():
+            # An integer power is computed exactly, so the size of the result is known in advance; refuse to compute values
+            # that would take an unreasonable amount of time and memory instead of hanging or running out of memory.
+            base_bits = max(abs(self._value.numerator).bit_length(), self._value.denominator.bit_length()) - 1
+            if base_bits * abs(right._value.numerator) > self._MAX_POWER_RESULT_BITS:
+                raise _any.InvalidOperandError("The result of the operation is too large to be represented")
         return self._generic_arithmetic(right, operator.pow)
 
 
